@@ -424,6 +424,17 @@ def run(pid, tier, replay=None):
     if rc:
         return rc
     chk.mark("send path (partial writes)")
+    # ---- "relays a given block at most once" when the node itself found the block and a neighbour sends it back while the miner's thread is
+    #      still handling it (Echo)
+    from checks import echo
+    from checks import node as nodechk
+    cfg_e = sk.Cfg(**nodechk.MODEL_CFG)
+    sk.apply_cfg(cfg_e)
+    rc = echo.stage(chk, quick, rng, pid, cfg_e, sk.Keys(3), nodechk.build_universe)
+    sk.restore_cfg()
+    if rc:
+        return rc
+    chk.mark("found block echoed by a neighbour")
     return chk.finish()
 
 
